@@ -4,7 +4,7 @@ import glob, json, os, sys
 ROOT = os.path.dirname(os.path.dirname(os.path.abspath(__file__)))
 tier = sys.argv[1] if len(sys.argv) > 1 else "quick"
 rows = []
-for d in sorted(glob.glob(os.path.join(ROOT, "seeded", "C*-m*"))):
+for d in sorted(glob.glob(os.path.join(ROOT, "seeded", "C*-*m*"))):
     sid = os.path.basename(d)
     try:
         meta = json.load(open(os.path.join(d, "meta.json")))
